@@ -4,7 +4,8 @@
     (Gen/BspFormats_gen.v); the check discharges their boolean premises for today's source by vm_compute. *)
 From Coq Require Import List String NArith ZArith Bool.
 From SV Require Import Bin.LE Bin.Struct Bin.StructProofs Bin.RLE Bin.RLEProofs Bin.FindInsert Bin.FindInsertProofs
-  Fmt.BspFormatsSpec Fmt.BspFormatsProofs Fmt.BspVisRow Fmt.BspVisRowProofs Fmt.BspTexStrings Fmt.BspTexStringsProofs.
+  Fmt.BspFormatsSpec Fmt.BspFormatsProofs Fmt.BspVisRow Fmt.BspVisRowProofs Fmt.BspTexStrings Fmt.BspTexStringsProofs
+  Fmt.BspRecords Fmt.BspRecordsProofs.
 Import ListNotations.
 
 (** * struct: unpack inverts pack for every format and every fitting record *)
@@ -40,6 +41,37 @@ Theorem c11_lump_formats_agree : forall layouts n appl ralts walts,
   forall ra wa, In ra ralts -> In wa walts ->
   exists r w, alt_fmt lay ra = Some r /\ alt_fmt lay wa = Some w /\ r = w /\ roundtrips r w.
 Proof. exact lump_formats_agree. Qed.
+
+(** The FULL record of a lump (all fields, both sides' orders compared, every layout table it applies to): if the field
+    orders generated from the reader and from the writer pass [record_ok], both sides name the same attribute(s) in every
+    position, the struct format has exactly that many values, all alternatives of both sides use that one format, and for
+    any assignment of values to the labels that fits the format, what is written is read back under the same labels. *)
+Theorem c11_record_roundtrip : forall layouts sts name sname lays rs ws,
+  record_ok layouts sts (name, sname, lays, rs, ws) = true ->
+  rs = ws /\
+  forall lname, In lname lays ->
+  exists lay f n appl ralts walts,
+    stream_named sname sts = Some (n, appl, ralts, walts) /\ In (lname, lay) layouts /\
+    record_fmt layouts sts sname lname = Some f /\ wf_fmt f = true /\ nvalues f = List.length rs /\
+    (forall ra, In ra ralts -> alt_fmt lay ra = Some f) /\ (forall wa, In wa walts -> alt_fmt lay wa = Some f) /\
+    forall field : slot -> value, fits f (map field ws) = true ->
+      exists bs, pack f (map field ws) = Some bs /\ List.length bs = calcsize f /\ unpack f bs = Some (map field rs).
+Proof. exact record_roundtrip. Qed.
+
+(** Attributes that share one integer ([hi << k | lo], read back by [>> k] and [& ((1 << k) - 1)]). *)
+Theorem c11_bitpack_roundtrip : forall k hi lo, (lo < 2 ^ k)%N ->
+  bit_hi k (bitpack k hi lo) = hi /\ bit_lo k (bitpack k hi lo) = lo.
+Proof. exact bitpack_roundtrip. Qed.
+Theorem c11_overlay_bits_roundtrip : forall rs rm ws maxf, overlay_bits_ok (rs, rm, ws) maxf = true ->
+  forall order cnt, (cnt <= maxf)%nat ->
+  let x := bitpack (N.of_nat ws) order (N.of_nat cnt) in
+  bit_hi (N.of_nat rs) x = order /\ bit_lo (N.of_nat rm) x = N.of_nat cnt.
+Proof. exact overlay_bits_roundtrip. Qed.
+Theorem c11_face_prim_bits_roundtrip : forall rmask rflag wmax wflag, face_prim_bits_ok (rmask, rflag, wmax, wflag) = true ->
+  forall cnt (flag : bool), (cnt <= wmax)%N ->
+  let x := N.lor cnt (if flag then wflag else 0%N) in
+  N.land x rmask = cnt /\ (negb (N.land x rflag =? 0)%N) = flag.
+Proof. exact face_prim_bits_roundtrip. Qed.
 
 (** Static props: for a version whose ladder passes prop_ok, both sides use one record of the declared size. *)
 Theorem c11_prop_layout_agree : forall name size rd wr, prop_ok (name, size, rd, wr) = true ->
